@@ -178,6 +178,9 @@ def run(ctx) -> None:
     ctx.rule("C16.R13-one-entry-per-consumed-file", "the 'files' ingredient of the hashed information has one entry per consumed file: it is built as a "
              "list over the consumed files and never passes through a set (or dict keys): two distinct files with identical contents, consumed "
              "through the same method, are two entries - a component that consumes one of them is different work")
+    ctx.rule("C16.R16-image-is-hashed-whole", "the container image that postprocess_backend puts into the hashed information is the configured image as a "
+             "whole: no proper PART of it (an element of split/partition, a slice, a regular-expression group), directly or through a local helper - "
+             "two different images must not be reduced to the same text")
     ctx.rule("C16.R9-own-executable", "the executable that is hashed is the component's own, after variable substitution: the configuration "
              "is fetched with raw=False, for the component's own name - shortened only by the replica index of the component and only "
              "when that name is not itself a component of the unreplicated description (never by stripping characters off the name)")
@@ -279,6 +282,34 @@ def run(ctx) -> None:
         ctx.ob("C16.R2-required-ingredients", pb, okb, "%s components hash their image" % b if okb else
                "the backend '%s' has an image option but postprocess_backend does not put it into the hashed information: two components that run "
                "the same command in different images get the same strong hash" % b, construct="%s -> image" % b)
+    # R16: .. and as a whole.  'registry.local:5000/acme/solver:latest'.split(':')[0] is 'registry.local' - so is the mesher's image
+    PART_METHODS = {"split", "rsplit", "partition", "rpartition", "splitlines", "group", "groups", "groupdict", "findall",
+                    "removeprefix", "removesuffix", "replace", "lower", "upper", "casefold", "sub"}
+
+    def takes_a_part(e: ast.AST, helpers_: Dict[str, ast.AST], depth: int = 0) -> Optional[ast.AST]:
+        for x in ast.walk(e):
+            if isinstance(x, ast.Subscript) and isinstance(x.slice, ast.Slice):
+                return x
+            if isinstance(x, ast.Call) and isinstance(x.func, ast.Attribute) and x.func.attr in PART_METHODS:
+                return x
+            if isinstance(x, ast.Call) and isinstance(x.func, ast.Name) and x.func.id in helpers_ and depth < 2:
+                for r_ in [r for r in ast.walk(helpers_[x.func.id]) if isinstance(r, ast.Return) and r.value is not None]:
+                    got = takes_a_part(r_.value, helpers_, depth + 1)
+                    if got is not None:
+                        return got
+        return None
+    local_helpers = {f_.name: f_ for f_ in ast.walk(pb) if isinstance(f_, ast.FunctionDef) and f_ is not pb}
+    local_helpers.update({f_.name: f_ for f_ in ast.walk(fn) if isinstance(f_, ast.FunctionDef) and f_ is not pb and f_ is not fn})
+    for n in img:
+        for k_, v_ in zip(n.ast.value.keys, n.ast.value.values):
+            if isinstance(k_, ast.Constant) and k_.value == "image":
+                part = takes_a_part(v_, local_helpers)
+                ctx.ob("C16.R16-image-is-hashed-whole", v_, part is None,
+                       "the image is hashed as configured (%s)" % short(v_, 50) if part is None else
+                       "the image that enters the hashed information is a PART of the configured image (%s): 'registry.local:5000/acme/solver:latest' and "
+                       "'registry.local:5000/acme/mesher:latest' are both reduced to 'registry.local', so two components that differ only in their "
+                       "container image get the same strong and fuzzy hash" % short(part, 50),
+                       construct="postprocess_backend: the image is hashed whole")
     ok = bool(kube) and any(match.only_via_edges(c0, n, kube) and any(l.endswith("[image]") for l in psl.leaves(n.ast.value)) for n in img)
     ctx.ob("C16.R2-required-ingredients", pb, ok, "kubernetes components hash their image" if ok else "the kubernetes image is no longer part of the hash", construct="kubernetes -> image")
     ok = bool(lsf) and any(match.only_via_edges(c0, n, lsf) and any(l.endswith("[dockerImage]") for l in psl.leaves(n.ast.value)) for n in img)
